@@ -25,6 +25,7 @@ type BoundedSpec struct {
 	ThoroughOnly bool   `json:"thorough_only"`
 	TimeoutS     int    `json:"timeout_s"`
 	Extra        []string `json:"extra_files"` // further files injected next to the test
+	TimeoutFails bool   `json:"timeout_is_failure"` // the property is about termination: running out of time is a failing case
 }
 
 type ReplaySpec struct {
@@ -403,10 +404,17 @@ func cmdCheck(args []string) int {
 					unknownFail = true
 				}
 			}
-			if len(fails) == 0 {
+			// A stand-in that ran out of its time limit without reporting a failing case
+			// explored less than its stated scope: that is an incomplete exploration, not
+			// a failing input (the property held on everything explored).
+			timedOut := len(fails) == 0 && strings.Contains(out, "panic: test timed out after") && !bs.TimeoutFails
+			if len(fails) == 0 && !timedOut {
 				unknownFail = true
 			}
-			if unknownFail {
+			if timedOut {
+				fmt.Printf("BOUNDED-INCOMPLETE property=%s bounded=%s: time limit of %ds reached before the stated scope was explored; no failing case seen\n", id, bs.Name, bs.TimeoutS)
+				be["status"] = "incomplete (time limit reached, no failing case seen)"
+			} else if unknownFail {
 				os.MkdirAll(replayDir, 0o755)
 				rf := filepath.Join(replayDir, "bounded_"+sanitize(bs.Name)+".json")
 				jb, _ := json.MarshalIndent(map[string]any{"property": id, "bounded": bs, "output": lastBytes(out, 12000),
